@@ -40,4 +40,46 @@ PLANS = {
             job('life-tcp', 'life-tcp', 'C01', {'quick': 4, 'thorough': 6}, {'quick': 1, 'thorough': 2}, wit=['tx_tcp', 'short_write']),
         ],
     },
+    'C05': {
+        'level': 'model_checking', 'rule': RULE_HIST + '; adversary packets (one mutation of what a genuine reply would be) are extra events; provenance markers in RDATA identify the packet every delivered record came from', 'assumptions': ASSUME, 'targets': T,
+        'deadline': {'quick': 420, 'thorough': 2700},
+        'jobs': [
+            job('adversary', 'adversary', 'C05', {'quick': 5, 'thorough': 7}, {'quick': 1, 'thorough': 2},
+                wit=['c05_authentic_delivery', 'forged_packet_read', 'tx_tcp']),
+        ],
+    },
+    'C06': {
+        'level': 'model_checking', 'rule': RULE_HIST + '; per-attempt server outcomes and the jitter/rotate draws are enumerated; transmissions are counted per query id at the virtual network', 'assumptions': ASSUME, 'targets': T,
+        'deadline': {'quick': 420, 'thorough': 2700},
+        'jobs': [
+            job('retry', 'retry', 'C06', {'quick': 4, 'thorough': 6}, {'quick': 1, 'thorough': 2},
+                wit=['c06_retransmission', 'c06_budget_exhausted', 'c06_gap_checked', 'policy_alternatives', 'fault_fired']),
+            job('retry-long', 'retry-long', 'C06', 1, 0, wit=['c06_budget_exhausted'], min_outcomes=1, shards=1),
+        ],
+    },
+    'C07': {
+        'level': 'model_checking', 'rule': RULE_HIST + '; in every state the timeout hint is compared (for four caller maxima) with the earliest deadline over ALL outstanding queries, and every timer event is executed one microsecond early (must change nothing) and on time (must make progress)', 'assumptions': ASSUME, 'targets': T,
+        'deadline': {'quick': 420, 'thorough': 2700},
+        'jobs': [
+            job('hint-udp', 'life-udp', 'C07', {'quick': 4, 'thorough': 5}, {'quick': 1, 'thorough': 2}, wit=['hint_checked', 'timer_fired']),
+            job('hint-retry', 'retry', 'C07', {'quick': 4, 'thorough': 6}, {'quick': 1, 'thorough': 2}, wit=['hint_checked', 'timer_fired']),
+            job('hint-tcp', 'life-tcp', 'C07', {'quick': 4, 'thorough': 6}, {'quick': 1, 'thorough': 2}, wit=['hint_checked', 'timer_fired']),
+        ],
+    },
+    'C08': {
+        'level': 'model_checking', 'rule': RULE_HIST + '; request menu = a base question and its near misses, replies with TTL mixes, virtual-time advances, server-list changes and reinit; reference cache keyed by (flags,type,class,lower-case name) built from the packets the library actually read', 'assumptions': ASSUME, 'targets': T,
+        'deadline': {'quick': 420, 'thorough': 2700},
+        'jobs': [
+            job('cache', 'cache', 'C08', {'quick': 4, 'thorough': 5}, 0, wit=['c08_cache_hit', 'c08_aged_hit_ttl_checked']),
+        ],
+    },
+    'C10': {
+        'level': 'model_checking', 'rule': RULE_HIST + '; per-descriptor automaton from the socket-call log, sock-state callback stream, legacy ares_fds/ares_getsock sets compared with what the channel holds, a fault at every socket call site', 'assumptions': ASSUME, 'targets': T,
+        'deadline': {'quick': 420, 'thorough': 2700},
+        'jobs': [
+            job('sock', 'sock', 'C10', {'quick': 4, 'thorough': 6}, {'quick': 1, 'thorough': 2}, wit=['fault_fired', 'tx_tcp', 'tx_udp', 'write_interest_needed', 'pending_write_cb']),
+            job('sock-life-udp', 'life-udp', 'C10', {'quick': 4, 'thorough': 5}, {'quick': 1, 'thorough': 2}, wit=['fault_fired']),
+            job('sock-reentrant', 'life-reentrant', 'C10', {'quick': 4, 'thorough': 5}, {'quick': 1, 'thorough': 2}),
+        ],
+    },
 }
